@@ -1,7 +1,7 @@
 (** C11 joined with C08 and the end-to-end model (System/History.v): the life-cycle model over the regenerated skeletons,
     instantiated with the real file -> settings function (Config.Model.load over the regenerated option tables). *)
 From Coq Require Import String List Bool.
-From Snoopy Require Import Lib.CStr Lib.Skel Lib.ResFlow CfgLife.Model CfgLife.Proofs Config.Model Filter.Model System.Compose System.History.
+From Snoopy Require Import Lib.CStr Lib.Skel Lib.ResFlow CfgLife.Model CfgLife.Proofs Config.Model Config.Exec Filter.Model System.Compose System.History.
 From Gen Require Import Gen_CfgLife Gen_Config Gen_Filter Gen_Expand Gen_Output Gen_Errors Gen_Sys.
 Import ListNotations.
 
@@ -12,6 +12,9 @@ Definition SC : sys_consts :=
      sc_err := Gen_Errors.err_append_text; sc_filtering := Gen_Sys.filtering_compiled |}.
 
 Lemma facts_ok : vfacts_ok G = true.
+Proof. vm_compute. reflexivity. Qed.
+(** the regenerated option tables, defaults and parser constants are the ones the C08 theorems hold for *)
+Lemma cfg_gen_ok : config_consts_ok Gen_Config.consts = true.
 Proof. vm_compute. reflexivity. Qed.
 (** the ten settings the INI layer can change are fields of the C record as regenerated from configuration.h *)
 Lemma setting_fields_ok : forallb (fun f => str_in f (g_fields G)) setting_fields = true.
